@@ -326,8 +326,16 @@ def runOp (env : Env) (parts : List String) : Resp :=
   | op :: rest => if op.startsWith "cli." then runCli env (op :: rest) else .harness s!"unknown op {op}"
   | [] => .harness "empty"
 
+/-- `seq <hex(line 1)> …`: the model has no state, so a sequence is answered line by line -/
+def seqParts (line : String) : Option (List String) :=
+  ((line.splitOn " ").drop 1).mapM fun h => (unhex h).bind fun b => String.fromUTF8? ⟨b.toArray⟩
+
 def runModelLine (env : Env) (line : String) : String :=
-  (runOp env (line.splitOn " ")).render
+  if line.startsWith "seq " then
+    match seqParts line with
+    | some subs => " ".intercalate ("ok" :: subs.map fun l => hx ((runOp env (l.splitOn " ")).render).toUTF8.toList)
+    | none => "harness-error bad seq"
+  else (runOp env (line.splitOn " ")).render
 
 open Judge in
 def judgeOp (env : Env) (parts : List String) (resp : String) : Verdict :=
@@ -581,11 +589,30 @@ def judgeCli (env : Env) (parts : List String) (resp : String) : Judge.Verdict :
     | _, _ => .skip
   | _ => .skip
 
+def judgeOne (env : Env) (op resp : String) : Judge.Verdict :=
+  if op.startsWith "cli." then judgeCli env (op.splitOn " ") resp
+  else judgeOp env (op.splitOn " ") resp
+
 def runJudgeLine (env : Env) (line : String) : String :=
   match line.splitOn "\t" with
   | [op, resp] =>
-    if op.startsWith "cli." then (judgeCli env (op.splitOn " ") resp).render
-    else (judgeOp env (op.splitOn " ") resp).render
+    if op.startsWith "seq " then
+      -- every answer of the sequence is judged as if its line stood alone: the statements are about single inputs
+      match seqParts op, seqParts resp with
+      | some ops, some resps =>
+        if ops.length != resps.length then "fails sequence answered with a different number of answers"
+        else
+          let vs : List Judge.Verdict := (ops.zip resps).map fun (o, r) => judgeOne env o r
+          let firstFail : Option (Nat × String) := vs.zipIdx.findSome? fun (p : Judge.Verdict × Nat) =>
+            match p.1 with
+            | Judge.Verdict.fails why => some (p.2, why)
+            | _ => none
+          match firstFail with
+          | some (i, why) => s!"fails in position {i + 1} of the sequence: {why}"
+          | none =>
+            if vs.all (fun v => match v with | Judge.Verdict.holds => true | _ => false) then "holds" else "skip"
+      | _, _ => if resp.startsWith "ok" then "skip" else "fails sequence not answered"
+    else (judgeOne env op resp).render
   | _ => "skip"
 
 end Hdw.Driver
